@@ -39,6 +39,7 @@ type Solver struct {
 	Errors    int
 	Time      time.Duration
 	memo      map[string]Result
+	shared    *sync.Map
 	Log       io.Writer // optional transcript
 	dead      bool
 	// Scope: only axioms whose free symbols all carry this name prefix (one namespace per harness
@@ -282,6 +283,12 @@ func (s *Solver) check(as []*Term, syms []*Term) (Result, map[string]ModelVal) {
 		if r, ok := s.memo[k]; ok {
 			return r, nil
 		}
+		if s.shared != nil {
+			if r, ok := s.shared.Load(s.Name + "|" + k); ok {
+				s.memo[k] = r.(Result)
+				return r.(Result), nil
+			}
+		}
 	}
 	if s.dead {
 		return Unknown, nil
@@ -359,6 +366,9 @@ func (s *Solver) check(as []*Term, syms []*Term) (Result, map[string]ModelVal) {
 	s.Time += time.Since(start)
 	if syms == nil {
 		s.memo[k] = res
+		if s.shared != nil && res != Unknown {
+			s.shared.Store(s.Name+"|"+k, res)
+		}
 	}
 	return res, model
 }
@@ -652,6 +662,9 @@ type Router struct {
 	TimeoutMs int
 	solvers   map[string]*Solver
 	Fallbacks int
+	// Shared: verdicts shared by the routers of the parallel workers of one entry (same scope, hence the
+	// same axioms); nil = none
+	Shared *sync.Map
 }
 
 func NewRouter(timeoutMs int) *Router {
@@ -667,6 +680,7 @@ func (r *Router) get(name string) *Solver {
 		panic(err)
 	}
 	s.Scope = r.Scope
+	s.shared = r.Shared
 	r.solvers[name] = s
 	return s
 }
